@@ -164,11 +164,15 @@ def run(ctx):
             o.set_method(getattr(I, name))
             return o
         a, b, c = mk(), mk(), mk()
-        a.integrate()
-        for o in (b, c):
-            for cf in cuts:
-                o.integrate(t0 + (tf - t0) * cf)
-            o.integrate()
+        try:
+            a.integrate()
+            for o in (b, c):
+                for cf in cuts:
+                    o.integrate(t0 + (tf - t0) * cf)
+                o.integrate()
+        except Exception as e:
+            ctx.oracle("split-run", False, inp, what="split/single run raised %r" % (e,))
+            continue
         ctx.oracle("identical-sequences-bitwise", np.array_equal(b.t, c.t) and np.array_equal(b.y, c.y), inp, what="the same call sequence gave different results on two fresh systems")
         from scipy.integrate import solve_ivp
         ex = solve_ivp(lambda t, y: rhs(t, y, 1.5), (t0, tf), [1.0, 0.25], method="DOP853", rtol=1e-12, atol=1e-13).y[:, -1]
